@@ -5,6 +5,7 @@ the package is installed there in development mode).  One property = one module 
 harness/props/ exposing
 
     PROPERTY   = "Cxx"
+    DRIVER     = "drv_<workstream>"               # lean_exe answering this property's ops
     THEOREMS   = ["Cxx.some_theorem", ...]        # Lean names proved in lean/Props/Cxx.lean
     PARTIAL    = {"Cxx.x_partial": "what the full statement would need"}   (optional)
     TRUSTED    = ["..."]                          # property specific trusted-base items
@@ -30,7 +31,7 @@ from collections import Counter, defaultdict
 
 VERIF = os.path.dirname(os.path.dirname(os.path.abspath(__file__)))
 LEAN = os.path.join(VERIF, "lean")
-DRIVER = os.path.join(LEAN, ".lake", "build", "bin", "amdriver")
+BIN = os.path.join(LEAN, ".lake", "build", "bin")
 ALLOWED_AXIOMS = {"propext", "Classical.choice", "Quot.sound"}
 BANNED = re.compile(
     r"\bsorry\b|\badmit\b|^\s*axiom\s|native_decide|bv_decide|implemented_by|\bunsafe\s|maxHeartbeats\s+0\b",
@@ -85,16 +86,18 @@ def strip_lean_comments(src: str) -> str:
 class Driver:
     """Pipes JSON lines to the compiled Lean driver and returns the JSON answers."""
 
-    def __init__(self):
+    def __init__(self, exe):
+        self.exe = exe
+        self.path = os.path.join(BIN, exe)
         self.calls = 0
 
     def ask(self, ops):
         if not ops:
             return []
-        if not os.path.exists(DRIVER):
-            raise RuntimeError("driver not built: " + DRIVER)
+        if not os.path.exists(self.path):
+            raise RuntimeError("driver not built: " + self.path)
         data = "\n".join(json.dumps(o, ensure_ascii=True) for o in ops) + "\n"
-        p = subprocess.run([DRIVER], input=data.encode(), stdout=subprocess.PIPE, stderr=subprocess.PIPE)
+        p = subprocess.run([self.path], input=data.encode(), stdout=subprocess.PIPE, stderr=subprocess.PIPE)
         if p.returncode != 0:
             raise RuntimeError("driver failed rc=%s: %s" % (p.returncode, p.stderr.decode()[-2000:]))
         lines = p.stdout.decode().splitlines()
@@ -108,11 +111,11 @@ class Driver:
 
 
 class Ctx:
-    def __init__(self, prop, tier, seed):
+    def __init__(self, prop, tier, seed, exe="drv_txn"):
         self.prop = prop
         self.tier = tier
         self.seed = seed
-        self.drv = Driver()
+        self.drv = Driver(exe)
         self.evaluations = 0
         self.traces = 0
         self._nontrivial = set()
@@ -219,11 +222,13 @@ def audit(prop, theorems):
 
 
 def load_findings(prop):
-    p = os.path.join(VERIF, "known_findings.json")
+    """known_findings/<Cxx>.json: {"findings": [{id, property, status: open|fixed, signature, what_fails, witness}]}
+    Committed, never written at run time."""
+    p = os.path.join(VERIF, "known_findings", "%s.json" % prop)
     if not os.path.exists(p):
         return []
     data = json.load(open(p))
-    return [f for f in data.get("findings", []) if f.get("property") == prop]
+    return [f for f in data.get("findings", []) if f.get("property", prop) == prop]
 
 
 def write_replay(prop, payload):
